@@ -92,6 +92,17 @@ def tpl_ids(sizeA, sizeB, named, x1, a1, x2, a2, x3, a3, x4, a4, t, _twin=False)
                 check()
             w.drain()
             check()
+            # epilogue: everything that has finished is flushed, then both pools get two more single-task requests:
+            # ids keep counting from where they were, never from what the pool still remembers
+            itA.flush(True); itB.flush(True)
+            w.settle()
+            for _ in range(2):
+                itA.apply(1)
+                itB.start(1)
+                w.settle()
+            check()
+            w.drain()
+            check()
             # a pool that was closed must not make a later unnamed pool collide with a live one
             if t >= 0:
                 g = itA.gather_and_close(True)
@@ -124,7 +135,7 @@ def families(tier):
            "0 <= x3 <= %d" % NOP, "a3 >= -1", "t >= 0"]
     if not thorough:
         pre += ["x4 == %d" % NOP, "a4 == 0", "1 <= sizeA <= 2", "sizeB == 2", "a2 <= 2", "a3 <= 1", "named == 0 or x1 == 3", "t >= 4"]
-        parts = parts_product(x1=range(5), x2=range(NOP))
+        parts = [p + [q] for p in parts_product(x1=range(5), x2=range(NOP)) for q in ("x3 <= 2", "3 <= x3 <= 5", "6 <= x3 <= 8", "x3 >= 9")]
     else:
         pre += ["x4 == %d" % NOP, "a4 == 0", "1 <= sizeA <= 3", "1 <= sizeB <= 2", "a2 <= 2", "a3 <= 2"]
         parts = refine(parts_product(named=(0, 1), x1=range(5), x2=range(NOP)), ["x2 == %d" % k for k in range(5)], "x3", range(NOP + 1))
